@@ -155,6 +155,13 @@ func (r *Report) Finish(verifDir string, known []Finding, seed int64) int {
 	vdir := filepath.Join(evDir, r.Property+".violations")
 	_ = os.RemoveAll(vdir)
 
+	if want := os.Getenv("VERIF_LIST"); want != "" { // debugging aid: list the obligations of one rule (or "all")
+		for _, o := range r.Obls {
+			if want == "all" || o.Rule == want {
+				fmt.Printf("  [%s] %s :: %s%s (%s)\n", o.Status, o.Key, o.Discharge, o.Text, o.Pos)
+			}
+		}
+	}
 	nViol, nKnown, nDis, nObs := 0, 0, 0, 0
 	distinct := map[string]bool{}
 	var samples []any
